@@ -5,6 +5,7 @@ from concurrent.futures import ThreadPoolExecutor
 VERIF = os.path.dirname(os.path.dirname(os.path.abspath(__file__)))
 sys.path.insert(0, VERIF)
 from vx.assemble import assemble
+from vx import assemble as asm_mod
 from vx.extract import LostAnchor, Source, REPO
 from vx.runner import run_verus, classify_msg
 from vx import kani as kani_mod
@@ -74,6 +75,9 @@ def run_unit(unit, drop_hints=(), suffix=""):
     oc = UnitOutcome(unit)
     try:
         Source._cache.clear()
+        b = load_baseline(unit.name)
+        asm_mod.ANCHOR_BASE[unit.name] = (b or {}).get("anchors", {})
+        asm_mod.ANCHOR_OUT[unit.name] = {}
         asm = assemble(unit, drop_hints=drop_hints)
     except LostAnchor as e:
         oc.status = "lost-anchor"
@@ -259,7 +263,8 @@ def check_property(prop, tier, units, specs, rebaseline=False, only_unit=None, s
                 continue
             fails = [x for x in oc.failures.get(q, []) if (x.get("props") is None or prop in x["props"])]
             und = oc.undecided.get(q)
-            nclauses = len([c for c in f.ensures if c.props is None or prop in c.props]) + len(f.requires) + len(f.loops)
+            nclauses = len([c for c in f.ensures if c.props is None or prop in c.props]) + len(f.requires) + len(f.loops) \
+                + len([c for c in f.claims if len(c) <= 4 or not c[4] or prop in c[4].split(",")])
             clause_count += nclauses
             cands = verus_fn_lookup(oc.res.functions, crate, q)
             t_us = sum(v["time_us"] for _, v in cands)
@@ -299,7 +304,8 @@ def check_property(prop, tier, units, specs, rebaseline=False, only_unit=None, s
         rewrites.extend("%s @ %s" % r for r in oc.asm.rewrites)
         if rebaseline:
             ver = [inv["qname"] for inv in oc.asm.inventory if not inv["stub"] and inv["qname"] not in oc.failures and inv["qname"] not in oc.undecided]
-            json.dump(dict(unit=u.name, verified=sorted(ver), verus_verified=oc.res.verified, verus_errors=oc.res.failed), open(os.path.join(VERIF, "baseline", u.name + ".json"), "w"), indent=1)
+            json.dump(dict(unit=u.name, verified=sorted(ver), verus_verified=oc.res.verified, verus_errors=oc.res.failed, anchors=asm_mod.ANCHOR_OUT.get(u.name, {})),
+                      open(os.path.join(VERIF, "baseline", u.name + ".json"), "w"), indent=1, sort_keys=True)
     # samples: a few obligations written out
     for oc in outcomes:
         if oc.status != "ok":
@@ -308,6 +314,9 @@ def check_property(prop, tier, units, specs, rebaseline=False, only_unit=None, s
             f = next(x for x in oc.unit.items if x.kind in ("fn", "stub") and x.qname() == inv["qname"])
             if inv["stub"] or prop not in fn_props(f):
                 continue
+            for c in f.claims[:2]:
+                if len(samples) < 8 and (len(c) <= 4 or not c[4] or prop in c[4].split(",")):
+                    samples.append(dict(function=inv["qname"], obligation="claim:" + (c[5] if len(c) > 5 else ""), clause=norm(c[2])[:400], source="%s:%d-%d" % (inv["file"], inv["lines"][0], inv["lines"][1])))
             for c in f.ensures[:2]:
                 if (c.props is None or prop in c.props) and len(samples) < 8:
                     samples.append(dict(function=inv["qname"], obligation="ensures", clause=norm(c.text)[:400], source="%s:%d-%d" % (inv["file"], inv["lines"][0], inv["lines"][1])))
